@@ -13,7 +13,8 @@ R-C05.1  "each operand once, in order, short-circuit operands behind their test"
          Desugarings in the checker that duplicate an operand (AugAssign on a subscript) are
          decided by counting the evaluation uses of the duplicated node.
 R-C05.2  ordering mechanism in place: the side-effect list names results, panic, exit,
-         state-result, qubit alloc/free/measure-free; calls count as side effects; every
+         state-result, qubit alloc/free/measure-free; `may_have_side_effect` interpreted on 20 operation tokens against a model list
+         (calls always, extension / custom operations iff their qualified name is listed, nothing else); every
          compile_inner runs inside track_hugr_side_effects; the tracker itself is interpreted (c05_tracker.py): its `with`
          body builds 900 model HUGRs (sequences over nine kinds of item, nested containers included) through the patched Hugr.add_node -- in every dataflow parent the order links are exactly
          Input -> e1 -> ... -> en -> Output over the children that have or contain a side effect, containers are marked in
@@ -431,11 +432,14 @@ def run(ctx: Ctx) -> None:
     missing = [v for k, v in need.items() if k not in txt]
     ctx.check(not missing, "R-C05.2", f"{cc.name}.EXTENSION_OPS_WITH_SIDE_EFFECTS", cc.rel, {"missing": missing},
               "an operation kind with an observable effect is not ordered relative to the others")
-    mh = idx.find_func("may_have_side_effect", cc.name)
-    arms = {ast.unparse(m.pattern): m for m in walk_no_nested(mh.node) if isinstance(m, ast.match_case)}
-    call_arm = next((m for p, m in arms.items() if "ops.Call()" in p and "ops.CallIndirect()" in p), None)
-    ok = call_arm is not None and any(isinstance(s, ast.Return) and isinstance(s.value, ast.Constant) and s.value.value is True for s in call_arm.body)
-    ctx.check(ok, "R-C05.2", f"{mh.qualname}#calls-are-side-effects", mh.where, {"arms": sorted(arms)[:6]}, "function calls are not kept in program order")
+    from . import c05_tracker as _c05t
+    if not _c05t.run_classifier(ctx):
+        # fallback: the `case ops.Call() | ops.CallIndirect(): return True` arm by its shape
+        mh = idx.find_func("may_have_side_effect", cc.name)
+        arms = {ast.unparse(m.pattern): m for m in walk_no_nested(mh.node) if isinstance(m, ast.match_case)}
+        call_arm = next((m for p, m in arms.items() if "ops.Call()" in p and "ops.CallIndirect()" in p), None)
+        ok = call_arm is not None and any(isinstance(s, ast.Return) and isinstance(s.value, ast.Constant) and s.value.value is True for s in call_arm.body)
+        ctx.check(ok, "R-C05.2", f"{mh.qualname}#calls-are-side-effects", mh.where, {"arms": sorted(arms)[:6]}, "function calls are not kept in program order")
     comp = idx.method("CompilerContext", "compile", cc.name)
     inner = [c for c in calls_in(comp.node) if call_name(c) == "compile_inner"]
     ok = bool(inner)
